@@ -568,7 +568,7 @@ func writeEvidence(vd, id string, prop *Property, tier string, seed int, e *Engi
 	ev := map[string]interface{}{
 		"property_id": id, "tier": tier, "seed": seed, "level": "model_checking",
 		"coverage":    cov,
-		"assumptions": prop.Assumptions,
+		"assumptions": nonNil(prop.Assumptions),
 		"wall_s":      time.Since(start).Seconds(),
 		"violations":  nViol,
 	}
@@ -634,3 +634,10 @@ func cmdPath(argv []string) int {
 }
 
 var debugPath bool
+
+func nonNil(s []string) []string {
+	if s == nil {
+		return []string{}
+	}
+	return s
+}
